@@ -22,34 +22,72 @@ REBASE = (r"Range::<bases::types::offset::Offset>::cut_rel$", r"Range::<bases::t
 CONVERT = (r"Into<.*>>::into$", r"From<.*>>::from$", r"Offset::into_u64$", r"Clone>::clone$")
 
 
+def _begin_of_same_region(b, cur, region):
+    """cur derives (without passing another call) from `<region>.begin()` of that same region operand"""
+    oc = b.origin_calls(cur, through_calls=False)
+    begins = [(j, tt) for j, tt in oc if call_is(tt, r"Range::<.*Offset>::begin$")]
+    if not oc or len(begins) != len(oc):
+        return False, [callee_str(tt) for _, tt in oc] or sorted(b.origins(cur, through_calls=False))
+    reg = {o for o in b.origins(region, through_calls=False) if o[0] in ("param", "call", "local", "field")}
+    for j, tt in begins:
+        ro = {o for o in b.origins(tt["args"][0], through_calls=False) if o[0] in ("param", "call", "local", "field")}
+        if ro & reg:
+            return True, ["begin() of the region"]
+    return False, ["begin() of another region"]
+
+
 def r1_cursor(cx):
+    """a fresh stream starts at the beginning of its region: wherever a ByteStream value is built, its cursor field is
+    `region.begin()` of the region stored next to it -- computed on the spot, or handed in by callers that all do so"""
     F = cx.F
     n = 0
     for f in F.live_fns:
         if "blocks" not in f:
             continue
-        b = None
         for i, blk in enumerate(f["blocks"]):
-            t = blk["t"]
-            if blk.get("cleanup") or not call_is(t, r"ByteStream::new_from_parts$"):
+            if blk.get("cleanup"):
                 continue
-            b = b or F.body(f)
-            cur = t["args"][2]
-            oc = b.origin_calls(cur, through_calls=False)
-            begins = [(j, tt) for j, tt in oc if call_is(tt, r"Range::<.*Offset>::begin$")]
-            ok = len(oc) >= 1 and len(begins) == len(oc)
-            same = False
-            if ok:
-                reg = b.origins(t["args"][1], through_calls=False)
-                reg = {o for o in reg if o[0] in ("param", "call", "local", "field")}
-                for j, tt in begins:
-                    ro = {o for o in b.origins(tt["args"][0], through_calls=False) if o[0] in ("param", "call", "local", "field")}
-                    if ro & reg:
-                        same = True
-            cx.ob("R1", "R1/%s" % f["name"], ok and same, f,
-                  "ByteStream::new_from_parts(source, region, cursor): cursor must be region.begin() of that same region; cursor derives from %s" % (
-                      [callee_str(tt) for _, tt in oc] or sorted(b.origins(cur, through_calls=False))), ln=t.get("ln"))
-            n += 1
+            for st in blk["s"]:
+                if not (st["k"] == "assign" and st["rv"]["k"] == "agg" and st["rv"].get("adt", "").endswith("reader::byte_stream::ByteStream")):
+                    continue
+                b = F.body(f)
+                fn = st["rv"].get("fnames") or []
+                if "offset" not in fn or "region" not in fn:
+                    raise AnchorLost("ByteStream no longer has the fields region/offset: %s" % fn)
+                cur, region = st["rv"]["fields"][fn.index("offset")], st["rv"]["fields"][fn.index("region")]
+                ok, why = _begin_of_same_region(b, cur, region)
+                if ok:
+                    n += 1
+                    cx.ob("R1", "R1/%s" % f["name"], True, f, "ByteStream { region, offset: region.begin() } built here", ln=st.get("ln"))
+                    continue
+                co = {o for o in b.origins(cur, through_calls=False) if o[0] != "field"}
+                ro = {o for o in b.origins(region, through_calls=False) if o[0] != "field"}
+                pc = [o[1] for o in co if o[0] == "param"]
+                pr = [o[1] for o in ro if o[0] == "param"]
+                if len(co) == 1 and len(pc) == 1 and len(pr) == 1:
+                    # the constructor receives the cursor: every caller must pass region.begin() of the region it passes
+                    sites = 0
+                    for g in F.live_fns:
+                        if "blocks" not in g:
+                            continue
+                        for j, gblk in enumerate(g["blocks"]):
+                            t = gblk["t"]
+                            c = t.get("callee") or {}
+                            if gblk.get("cleanup") or t["k"] != "call" or f["id"] not in (c.get("rfn"), c.get("def_fn")):
+                                continue
+                            gb = F.body(g)
+                            ok2, why2 = _begin_of_same_region(gb, t["args"][pc[0] - 1], t["args"][pr[0] - 1])
+                            sites += 1
+                            n += 1
+                            cx.ob("R1", "R1/%s" % g["name"], ok2, g,
+                                  "%s(.., region, cursor): the cursor must be region.begin() of that same region; cursor derives from %s" % (f["name"].split("::")[-1], why2), ln=t.get("ln"))
+                    if not sites:
+                        cx.ob("R1", "R1/%s" % f["name"], True, f, "constructor taking the cursor has no caller", trivial=True)
+                else:
+                    n += 1
+                    cx.ob("R1", "R1/%s" % f["name"], False, f, "ByteStream built with a cursor that is neither region.begin() nor a parameter checked at the call sites: %s" % why, ln=st.get("ln"))
+    if n == 0:
+        raise AnchorLost("no construction of ByteStream found")
 
 
 def _offset_params(f):
@@ -275,7 +313,7 @@ def r5_file_reads_are_positioned(cx):
 
 
 RULES = [
-    ("R1", r1_cursor, 4),
+    ("R1", r1_cursor, 1),
     ("R2", r2_rebase, 20),
     ("R3", r3_siblings, 8),
     ("R4", r4_stream_read, 7),
